@@ -898,6 +898,9 @@ def pred_c10(line, st):
         return None if r[0] == "1" else "honest boundary case refused (%s)" % " ".join(a[1:])
     if kind in ("secretkey.check", "secretkey.verify"):
         return None if r[0] == "1" else "%s failed on a generated key" % kind
+    if kind == "generate":
+        st["rabin_generated"] = st.get("rabin_generated", 0) + 1
+        return None if r[0] == "check=1" else "key validation refused a key the library generated itself (%s)" % " ".join(a[1:4])
     if kind in ("sqrtmp", "sqrtmn"):
         # residues=N => ok_r=N ok_det=N [...]: every residue's root squared back, for every routine
         n = [x for x in a if x.startswith("residues=")]
@@ -986,17 +989,19 @@ PROPS["C10"] = dict(
         "sqrtmp_sq_all", "sqrtmnR_sq", "sqrtmnFastAll_sq", "precompute_ok", "verify_sign", "verify_neg_root", "verify_accepts_iff",
         "verify_accepted_square'", "verify_same_pad", "verify_data_collision", "verify_keyid", "decrypt_encrypt", "decrypt_accepts_iff",
         "decrypt_accepted", "decrypt_unique_ciphertext", "decrypt_same_encoding", "check_stage_counts", "check_refuses_short_proof",
-        "check_refuses_nonpositive_modulus", "toyKey_blum", "toyKey_pre", "toyKey_keyid")],
+        "check_refuses_nonpositive_modulus", "toyKey_blum", "toyKey_pre", "toyKey_keyid",
+        "safe_prime", "generate_blum", "generate_preconditions", "generate_sig", "generate_selfsig", "generated_verify_sign",
+        "generated_decrypt_encrypt", "response_ok1", "response_ok2", "response_ok3", "checkNizk_complete", "check_generate")],
     predicate=pred_c10,
     level_text="Theorems in Lean 4 about models of sign/verify (PRab), encrypt/decrypt (SAEP), the square-root routines (all three branches mod p, CRT mod n, all four roots), the key-id functions and the decision logic of "
                "key validation, with the hash functions as arbitrary parameters: signatures verify for every Blum key, data and coins; exact acceptance conditions of verify and decrypt, from which: the negated root is the only other "
                "accepted value with the same padding, altered data is accepted only on an explicit hash collision, a foreign key id is refused, a ciphertext is determined by the root it opens through; decrypt(encrypt v) = v; "
                "key validation refuses shortened NIZK stages and non-positive moduli. Correspondence: keys from the real constructor (424..832 bits, one NIZK key), every field of key/signature/ciphertext text mutated, "
-               "exhaustive square roots for small primes; model recomputes every library call with the logged hash answers. Partial: key generation and the NIZK prover are not modelled.",
+               "exhaustive square roots for small primes; model recomputes every library call with the logged hash answers. Key generation (tmcg_mpz_sprime3mod4 with its sieves and the Lucas-type step, choice of y, the NIZK prover of the three stages, the self-signature) is modelled too: every generated key is a Blum key of safe primes with p != q mod 8 and a non-residue y of Jacobi symbol 1 (primality of p = 2q+1 is proved, not assumed), satisfies the preconditions of sign/encrypt, and passes key validation (completeness of the three NIZK stages); every key generated in a run is reproduced byte for byte by the model from the logged coins and primality answers.",
     level_note=LEVEL_NOTE + " tmcg_h/tmcg_g are oracle parameters (answers logged from the real functions); mpz_probab_prime_p is an oracle answer per line.",
     assumptions=["hash functions are parameters: tamper evidence for altered data is stated as a reduction to an explicit collision",
                  "decrypt_encrypt assumes: modulus bit length not a multiple of 8, encoded value a unit mod m, no redundancy collision of g among the other three roots",
-                 "partial: key generation and NIZK proof generation not modelled; variable-length key ids (suffixes) are accepted by design"],
+                 "key generation: mpz_probab_prime_p is an oracle assumed sound (never calls a composite prime) for the cofactor q only; check_generate assumes KeyIdOk (the self-signature value has at least 8 base-62 digits; otherwise the real library refuses its own key as well); variable-length key ids (suffixes) are accepted by design"],
 )
 PROPS["C14"] = dict(
     module="TmcgProps.C14",
